@@ -241,7 +241,19 @@ def restoreFrame (caller σ : RSt) : RSt :=
   -- (module variables and named functions cannot change inside a function: every rule that would is outside the
   --  core; restoring them states that frame property once, here)
   { σ with stack := caller.stack, params := caller.params, shadow := caller.shadow, depth := caller.depth,
-           globals := caller.globals, funcs := caller.funcs }
+           globals := caller.globals, funcs := caller.funcs,
+           -- function objects that existed before the call are not changed by it (attributes are only ever set on the
+           -- wrapper a modifier has just created): the call contributes the new ones
+           fns := caller.fns ++ σ.fns.drop caller.fns.length }
+
+/-- enter a list item: a frame of its own (no named parameters), the same stack, one more function object -/
+def enterItem (σ : RSt) : RSt :=
+  { σ with params := [], shadow := σ.params.map (·.1) ++ σ.shadow, depth := σ.depth + 1,
+           fns := σ.fns ++ [⟨0, Option.none, [], [], false⟩] }
+
+/-- what a list item contributes: nothing if it leaves its stack empty, else its top -/
+def itemResult (σ : RSt) : Option Val × RSt :=
+  if σ.stack.isEmpty then (Option.none, σ) else (some σ.pop1.1, σ.pop1.2)
 
 /-- the result of a lambda body: its top of stack, or what a `break` returned -/
 def lamResult (sg : Sig) (σ : RSt) : R (Val × RSt) :=
@@ -383,7 +395,8 @@ def forLoop (cfg : Cfg) : Nat → Option Str → List Structure → List Val →
   | 0, _, _, _ :: _, _ => .error .fuel
   | n + 1, var, body, x :: xs, σ =>
       -- a named loop variable inside a function is a Python local: outside the core
-      if namedVar var ∧ σ.depth > 0 then .error (.unmodelled "loop variable inside a function") else
+      if namedVar var ∧ (σ.depth > 0 ∨ (lookupKV (var.getD []) σ.funcs).isSome) then
+        .error (.unmodelled "loop variable inside a function, or named like a function") else
       do
         let (sg, σ1) ← execL cfg n body { bindFor var x σ with ctxVals := x :: (bindFor var x σ).ctxVals }
         let σ2 ← σ1.dropCtx
@@ -420,17 +433,13 @@ def listItems (cfg : Cfg) : Nat → List (List Structure) → RSt → R (List Va
   | 0, _ :: _, _ => .error .fuel
   | n + 1, item :: rest, σ =>
       do
-        let (sg, σ1) ← execL cfg n item { σ with params := [], shadow := σ.params.map (·.1) ++ σ.shadow, depth := σ.depth + 1,
-                                                 fns := σ.fns ++ [⟨0, Option.none, [], [], false⟩] }
+        let (sg, σ1) ← execL cfg n item (enterItem σ)
         match sg with
         | .normal =>
-            let (v?, σ2) : Option Val × RSt :=
-              if σ1.stack.isEmpty then (Option.none, σ1) else let (v, σ') := σ1.pop1; (some v, σ')
-            let σ3 := { σ2 with stack := σ.stack, params := σ.params, shadow := σ.shadow, depth := σ.depth }
-            let (vs, σ4) ← listItems cfg n rest σ3
-            .ok ((match v? with | some v => v :: vs | Option.none => vs), σ4)
+            let (vs, σ4) ← listItems cfg (n + 1) rest (restoreFrame σ (itemResult σ1).2)
+            .ok ((match (itemResult σ1).1 with | some v => v :: vs | Option.none => vs), σ4)
         | _ => .error (.unmodelled "break inside a list item")
-termination_by n _ _ => (n, 1, 0)
+termination_by n items _ => (n, 1, items.length)
 
 /-- call a function value: `argStack` is the list its arguments are popped from (head = first popped),
     `arity` overrides the function's own arity (`safe_apply` passes the number of arguments).
@@ -509,6 +518,7 @@ def callNamed (cfg : Cfg) : Nat → Str → RSt → R (Sig × RSt)
       match lookupKV name σ.funcs with
       | Option.none => .error (.raised "NameError")
       | some (ps, body) =>
+        if (lookupKV name σ.params).isSome then .error (.unmodelled "parameter named like the function") else
         do
           let (parameters, locals, σ1) ← bindParams ps σ
           let σ2 : RSt := { σ1 with stack := parameters.reverse, params := locals, shadow := [], depth := σ.depth + 1,
